@@ -771,6 +771,12 @@ class Converter:
                 if not (elt.lower is None and elt.upper is None and elt.step is None):
                     sliced_indices.append((axis, elt))
             elif self._is_constant_expr(elt) and isinstance(
+                self._eval_constant_expr(elt), bool
+            ):
+                # bool is a subclass of int: a boolean index would be sliced as the integer 0 / 1,
+                # where NumPy inserts an axis (boolean mask of rank 0).
+                self._fail(elt, "Boolean values are not supported as an index.")
+            elif self._is_constant_expr(elt) and isinstance(
                 self._eval_constant_expr(elt), int
             ):
                 scalar_indices.append((axis, elt))
